@@ -51,9 +51,9 @@ def obs_cfg(navdir, pb):
 
 
 def _seqkind(i, L):
-    k = ('gen', 'genfn', 'lazy', 'sized', 'gen', 'maplike', 'lazy')[i % 7]
+    k = ('gen', 'genfn', 'lazy', 'sized', 'gennone', 'maplike', 'lazy')[i % 7]
     if L < 0 and k in ('lazy', 'sized', 'maplike'):
-        k = 'gen'
+        k = 'gen' if i % 2 else 'gennone'
     return k
 
 
@@ -103,7 +103,7 @@ def adjudicate(cases, mode, V, what):
         part = cases[off:off + CH]
         payload = json.dumps([dict({k: c[k] for k in ('p', 'e', 'c', 'r', 'pl', 'ln')}, np=0) for c in part])
         res = tlc.run('ObsBatch', obs_cfg(navdir, mode == 'pb'),
-                      files={'cases.json': payload, 'chains.json': '[]'}, workers=8)
+                      files={'cases.json': payload, 'chains.json': '[]', 'lists.json': '[]', 'forms.json': '[]'}, workers=8)
         st += res.distinct
         tr += res.generated
         vs = {v['tid'] - 1: v for v in res.prints}
